@@ -172,7 +172,7 @@ func (p *Packer) Pack(src string, w io.Writer) (*Meta, error) {
 	}
 
 	// Walk the tree of files.
-	err = filepath.Walk(src, p.packWalkFn(src, src, src, tarW, meta, ignoreRules))
+	err = filepath.Walk(src, p.packWalkFn(src, src, src, tarW, meta, ignoreRules, []string{src}))
 	if err != nil {
 		return nil, err
 	}
@@ -190,7 +190,11 @@ func (p *Packer) Pack(src string, w io.Writer) (*Meta, error) {
 	return meta, nil
 }
 
-func (p *Packer) packWalkFn(root, src, dst string, tarW *tar.Writer, meta *Meta, ignoreRules *ignorefiles.Ruleset) filepath.WalkFunc {
+// walking is the list of directories currently being walked: the source root
+// followed by the directories entered by dereferencing symlinks on the way to
+// src. It is what lets a symlink that leads back into one of them be refused
+// instead of being followed forever.
+func (p *Packer) packWalkFn(root, src, dst string, tarW *tar.Writer, meta *Meta, ignoreRules *ignorefiles.Ruleset, walking []string) filepath.WalkFunc {
 	return func(path string, info os.FileInfo, err error) error {
 		if err != nil {
 			return err
@@ -286,7 +290,17 @@ func (p *Packer) packWalkFn(root, src, dst string, tarW *tar.Writer, meta *Meta,
 			// If the target is a directory we can recurse into the target
 			// directory by calling the packWalkFn with updated arguments.
 			if resolved.info.IsDir() {
-				return filepath.Walk(resolved.absTarget, p.packWalkFn(root, resolved.absTarget, path, tarW, meta, ignoreRules))
+				target := filepath.Clean(resolved.absTarget)
+				for _, dir := range walking {
+					if rel, err := filepath.Rel(target, dir); err == nil && rel != ".." && !strings.HasPrefix(rel, ".."+string(filepath.Separator)) {
+						// dir is target itself or lies below it: the walk
+						// would come back to where it already is.
+						return &IllegalSlugError{
+							Err: fmt.Errorf("symlink %q leads back to a directory that contains it (%q)", path, target),
+						}
+					}
+				}
+				return filepath.Walk(target, p.packWalkFn(root, target, path, tarW, meta, ignoreRules, append(walking[:len(walking):len(walking)], target)))
 			}
 
 			// Dereference this symlink by updating the header with the target file
@@ -336,6 +350,18 @@ func (p *Packer) packWalkFn(root, src, dst string, tarW *tar.Writer, meta *Meta,
 // encounter a symbolic link chain. It returns path information about the final
 // target pointing to a regular file or directory.
 func (p *Packer) resolveExternalLink(root string, path string) (*externalSymlink, error) {
+	return p.resolveExternalLinkDepth(root, path, 0)
+}
+
+// maxLinkChain bounds the length of a chain of symlinks followed while
+// dereferencing, like the kernel's own limit; a longer chain is a cycle.
+const maxLinkChain = 40
+
+func (p *Packer) resolveExternalLinkDepth(root string, path string, depth int) (*externalSymlink, error) {
+	if depth > maxLinkChain {
+		return nil, &IllegalSlugError{Err: fmt.Errorf("too many levels of symbolic links at %q", path)}
+	}
+
 	// Read the symlink file to find the destination.
 	target, err := os.Readlink(path)
 	if err != nil {
@@ -359,7 +385,7 @@ func (p *Packer) resolveExternalLink(root string, path string) (*externalSymlink
 
 	// Recurse if the symlink resolves to another symlink
 	if info.Mode()&os.ModeSymlink != 0 {
-		return p.resolveExternalLink(root, absTarget)
+		return p.resolveExternalLinkDepth(root, absTarget, depth+1)
 	}
 
 	return &externalSymlink{
